@@ -67,6 +67,31 @@ CLAIMED = {
             'Source trees (colliding names after mangling, Unicode, > 8.3 / 31 / 64 characters, deep nesting, empty files and directories, identical and hash-colliding contents, relative/absolute/dangling symlinks) x -iso-level x -R/-r x -J x -udf x -scan-for-duplicates x boot options x hide/exclude patterns are built with pycdlib-genisoimage and extracted with pycdlib-extract-files per requested view; paths, bytes and symlink targets must match the model of the tree, the ISO9660 view must hold every file once under a legal distinct identifier, and the image must carry exactly the requested extensions (struct-based sniffing).',
             'Only documented option combinations are generated; patterns never start with "-" and never match the boot image.',
             'DESIGN.md section 3, C20'),
+    'C08': ('exploration',
+            'property-based testing (Hypothesis) with an independent SUSP/RRIP decoder as oracle, compared with the reference model',
+            'Images of generated Rock Ridge histories (1.09/1.10/1.12, XA, names up to > 1000 bytes, symlink targets from a grammar, relocation, many entries per directory, removals, reopen generations) are decoded by vf/indep/iso9660.py: NM-joined names, PX modes (when given), PX link counts recomputed from the physical hierarchy, SL targets and the logical tree after CL/RE/PL resolution must equal the model; system-use areas must be well formed (lengths, CE areas inside their sector and disjoint, CE/CL/PL targets, ER id for the version, SP only in the root dot record, PX length per version).',
+            'Independent SUSP/RRIP reader is my reading of the specifications. Link count rule for directories is an interpretation (POSIX count over the physical hierarchy).',
+            'DESIGN.md section 3, C08'),
+    'C09': ('exploration',
+            'property-based testing (Hypothesis) with an independent Joliet decoder as oracle, plus boundary probes for the refusal clause',
+            'Images of generated Joliet histories (levels 1-3, divergent trees, BMP and astral names up to 64 UTF-16 units, removals, reopen) are decoded from the supplementary descriptor alone: tree, names and contents must equal the model, Joliet files must share sectors with their ISO9660 links, the descriptor\'s path tables / "." / ".." / ordering must be valid and the escape sequence must match the level. Single-edit probes with names of 58..70 units check that > 64 units is refused with PyCdlibInvalidInput and that accepted names come back exactly.',
+            'Names are decoded as UTF-16BE; astral characters count as two units.',
+            'DESIGN.md section 3, C09'),
+    'C10': ('exploration',
+            'property-based testing (Hypothesis) with an independent ECMA-167/UDF decoder as oracle, compared with the reference model',
+            'Images of generated UDF histories (files, directories past one sector of FIDs, symlinks, cross-namespace and UDF hard links, removals, reopen-then-edit, Latin-1 and UCS-2 names) are decoded by vf/indep/udf.py starting only from the VRS and the anchors at 256 and the last sector: all validator clauses (anchors, tags incl. CRC/checksum/location, main/reserve VDS, partition bounds, LVID, FSD->root, information lengths, extents, parent FIDs, link counts, names) must be silent and the recovered tree, symlink targets and file bytes must equal the model.',
+            'Independent UDF reader validated by its image-mutation self-test. Files > 4 GiB not in the quick tier.',
+            'DESIGN.md section 3, C10'),
+    'C11': ('exploration',
+            'property-based testing (Hypothesis) with an independent El Torito decoder as oracle, compared with the requested boot parameters and file contents',
+            'Images of generated boot histories (noemul/floppy/hdemul, platform ids, up to 32 entries, efi/bootable flags, load size/segment, boot info table, explicit catalog names, catalog hard links, unlinked boot files, rm_eltorito, reopen) are decoded independently: boot record at 17, validation entry checksum, per-entry parameters, section headers, each RBA holding the chosen boot file\'s bytes, the catalog readable through each of its names with identical bytes, and the boot info table (PVD sector, file sector, length, checksum) both as stored and as read back.',
+            'El Torito 1.0 layout as I read it. Section platform ids follow what add_eltorito documents.',
+            'DESIGN.md section 3, C11'),
+    'C12': ('exploration',
+            'property-based testing (Hypothesis) with an independent MBR/GPT/APM decoder as oracle plus a differential against the non-hybrid image of the same history',
+            'Hybrid images by construction (isolinux-signature boot file, 0-2 EFI entries, drawn geometry 1..63 x 1..256, partition entry/offset/type, mbr id, efi/mac, edits after add_isohybrid, reopen) are decoded by vf/indep/hybrid.py and validated against facts from the independent ISO9660/El Torito reader: signature, single active partition with CHS/LBA covering the cylinder-padded image, boot file address, GPT CRCs and primary/backup mirror, EFI/Mac partitions and APM entries delimiting the El Torito images, no overlap of the backup GPT with the volume; bytes from 32 KiB to the volume end must equal the non-hybrid image of the same history.',
+            'Either assignment of two 0xef images to the EFI and Mac roles is accepted (interpretation).',
+            'DESIGN.md section 3, C12'),
 }
 
 NOT_YET = 'check not built yet in this session (work in progress; see DESIGN.md section 9 for the order)'
